@@ -312,14 +312,15 @@ static void List_Push(var self, var obj) {
 static void List_Push_At(var self, var obj, var key) {
   struct List* l = self;
   
+  int64_t i = c_int(key);
+  var curr = i is 0 ? l->head : List_At(l, i);
+  
   var item = List_Alloc(l);
   assign(item, obj);
   
-  int64_t i = c_int(key);
   if (i is 0) {
     List_Link(l, item, NULL, l->head);
   } else {
-    var curr = List_At(l, i);
     List_Link(l, item, *List_Prev(l, curr), curr);
   }
   l->nitems++;
